@@ -359,6 +359,13 @@ class Machine(object):
                         raise Diverged("implementation flushed kind %s at nested decision %d but the reference has no pending item of that kind"
                                        % (k, self.ci - 1))
                     self.flush(k, True)
+                if it.err is not None:
+                    # the nested call failed inside the flush body: the body raises before setting anything
+                    self.nested_depth -= 1
+                    for x in items:
+                        x.done = True
+                        x.err = it.err
+                    return
             self.nested_depth -= 1
         if mode == "new":
             self.pending.setdefault(kind, []).append(RItem(kind, -1 - len(self.flog), "ok"))
